@@ -92,7 +92,7 @@ class Gen:
             self.lpk = "greedy"
         self.npk = npk
         self.ltype = rng_.choice(profile.get("labels", ["int", "int", "str", "float"]))
-        self.pool = list(LABEL_SETS[self.ltype])
+        self.pool = list((BIG_LABELS if profile.get("big") else LABEL_SETS)[self.ltype])
         rng_.shuffle(self.pool)
         n_arms = rng_.choice(profile.get("n_arms", [1, 2, 2, 3, 3, 4, 5]))
         self.arms = self.pool[:n_arms]
@@ -414,7 +414,66 @@ def warm_readd_scenario(rng, g):
     return {"cfg": g.cfg, "ops": ops}
 
 
+BIG_LABELS = {
+    "int": [1000 + 7 * i for i in range(40)] + [0, -3],
+    # long labels, labels that look like numbers (and sort differently as strings), a label with spaces
+    "str": ["campaign-2024-%03d-variant" % i for i in range(30)] + ["10", "2", "1", "1.0", "02", " a b ", "x" * 40],
+    "float": [0.125 * i for i in range(1, 36)] + [-1.5, 1e6, 1e-6],
+}
+
+
+def big_scenario(seed, index, profile):
+    """the same kind of history on data of another shape and scale: 20-30 arms, 10-12 context features, batches of several
+    hundred to over a thousand rows, dozens of query rows per call, large k / many clusters / many tables, extreme (legal)
+    hyper-parameters, rewards and contexts of large magnitude or with many binary places"""
+    rng = random.Random("%s/%s/big/%s" % (seed, profile.get("name", ""), index))
+    prof = dict(profile)
+    prof["n_arms"] = [20, 25, 30]
+    prof["dims"] = [10, 12]
+    prof["batch_sizes"] = [40, 300, 600, 1100] if not profile.get("big_small_batches") else [40, 150, 300]
+    prof["query_sizes"] = [1, 33, 65]
+    prof["n_ops"] = (2, 5)
+    w = dict(profile.get("weights", {"fit": 1, "pfit": 3, "query": 4, "add": 1.5, "rem": 1, "warm": 0}))
+    w["bad"] = 0
+    prof["weights"] = w
+    prof["big"] = True
+    g = Gen(rng, prof)
+    cfg = g.cfg
+    lp = cfg["lp"]
+    # extreme but legal hyper-parameters
+    if lp["k"] == "softmax":
+        lp["tau"] = rng.choice([2.0 ** -10, 2.0 ** 10, 1.0])
+    if "alpha" in lp and lp["k"] != "lints":
+        lp["alpha"] = rng.choice([0.0, 8.0, lp["alpha"]])
+    if "lam" in lp:
+        lp["lam"] = rng.choice([2.0 ** -10, 2.0 ** 10, lp["lam"]])
+    if "eps" in lp:
+        lp["eps"] = rng.choice([0.0, 1.0, lp["eps"]])
+    npc = cfg.get("np")
+    if npc:
+        if npc["k"] == "knn":
+            npc["kk"] = rng.choice([1, 17, 40])
+        elif npc["k"] == "radius":
+            npc["r"] = rng.choice([0.5, 6.0, 1000.0])
+            npc["probs"] = None
+        elif npc["k"] == "lsh":
+            npc["ndim"] = rng.choice([2, 12, 20])
+            npc["ntab"] = rng.choice([1, 6])
+        elif npc["k"] == "clusters":
+            npc["n"] = rng.choice([2, 8, 12])
+    scn = g.build()
+    scale = rng.choice([1.0, 1.0, 2.0 ** 20, 2.0 ** -12])
+    if g.lpk not in ("thompson",) and scale != 1.0:
+        for op in scn["ops"]:
+            if op.get("r") is not None:
+                op["r"] = [x * scale if isinstance(x, (int, float)) and not isinstance(x, bool) else x for x in op["r"]]
+    return scn
+
+
 def gen_scenario(seed, index, profile):
+    if profile.get("big_rate", 0.02) > 0 and random.Random("%s/%s/bigp/%s" % (seed, profile.get("name", ""), index)).random() < \
+            profile.get("big_rate", 0.02):
+        return big_scenario(seed, index, profile)
     rng = random.Random("%s/%s/%s" % (seed, profile.get("name", ""), index))
     g = Gen(rng, profile)
     # a seventh of the scenarios hand the rewards over as a boolean / narrow-integer numpy array whenever a batch
